@@ -128,7 +128,14 @@ def main(prop, level, body, argv=None):
     """Run a check body(ctx); exit 0 held / 1 violation / 2 machinery failure."""
     try:
         ctx = Ctx(prop, level, argv)
-        body(ctx)
+        try:
+            body(ctx)
+        except Exception as e:  # noqa
+            from . import env as _env
+            if not isinstance(e, _env.HarnessDrift):
+                raise
+            # the private layout the harness instruments is gone (a rename): what was judged so far stands, the rest is reported as a notice
+            ctx.design_drift('%s - the parts of this check that need it were not run' % e)
         rc = ctx.finish()
     except SystemExit:
         raise
